@@ -5,7 +5,7 @@ import bibtexparser
 from bibtexparser.middlewares import RemoveEnclosingMiddleware
 from bibtexparser.model import DuplicateBlockKeyBlock, Entry, String
 
-from .. import leak
+from .. import bigdocs, dialect, leak
 from ..canon import canon
 
 ID = "C11"
@@ -44,7 +44,7 @@ def bounds(tier):
 
 
 def shards(tier):
-    return [("first", i) for i in range(len(CAT))] + [("leak", 0)]
+    return [("first", i) for i in range(len(CAT))] + [("leak", 0)] + [("big", n, v) for n in (bigdocs.SIZES_QUICK if tier == "quick" else bigdocs.SIZES_THOROUGH) for v in (0, 1)]
 
 
 def strip1(v):
@@ -126,6 +126,36 @@ def check_doc(ids, acc, case=None):
 
 
 def run_shard(shard, tier, acc):
+    if shard[0] == "big":
+        text, exp = bigdocs.document(shard[1], shard[2])
+        want = bigdocs.expected_after_default_stack(exp)
+        case = {"big": [shard[1], shard[2]]}
+        acc.trace()
+        acc.case(nontrivial_key=("big", shard[1], shard[2]))
+        try:
+            lib = bibtexparser.parse_string(text)
+        except Exception as e:
+            acc.exception(e, case, "parse_string")
+            return
+        got = dialect.observed(lib)
+        acc.step(("big", shard[1], shard[2]), "parse", len(got))
+        if got != want:
+            i = next((n for n, (a, b) in enumerate(zip(got, want)) if a != b), min(len(got), len(want)))
+            acc.violation(
+                {"oracle": "field_values_after_resolution", "form": "big document", "kind": "differs"},
+                {"case": case, "observed": got[i] if i < len(got) else None, "expected": want[i] if i < len(want) else None, "block_index": i},
+                size=shard[1],
+            )
+            return
+        strings = {b[1] for b in exp if b[0] == "string"}
+        for b, e in zip(lib.blocks, exp):
+            if e[0] == "entry":
+                res = [k for k, v in e[3] if v in strings]
+                meta = b.parser_metadata.get("ResolveStringReferences")
+                if (meta or None) != (res or None):
+                    acc.violation({"oracle": "resolved_field_keys_recorded"}, {"case": case, "observed": meta, "expected": res, "entry": e[2]}, size=shard[1])
+                    return
+        return
     if shard[0] == "leak":
         from bibtexparser.middlewares import ResolveStringReferencesMiddleware
         from bibtexparser.splitter import Splitter
